@@ -30,3 +30,19 @@ package webrtc
 //@   requires s.w != nil
 //@   assert at call quic.ListenSession: arg5 == s.peerID && s.offerer
 //@   assert at call quic.DialSession: arg6 == s.peerID && !s.offerer
+
+// ---- C40: decoding and validating WebRTC signals is total ----
+// (oneof wrappers of a decoded message are nil or non-nil pointers: see signaling/rpc)
+//@ func (*WebRtcSignal).Validate
+//@   nilable-receiver
+//@   noframe
+//@   requires m != nil ==> (istype(m.Body, ptr(WebRtcSignal_Sdp)) ==> unboxed(m.Body, ptr(WebRtcSignal_Sdp)) != nil) && (istype(m.Body, ptr(WebRtcSignal_Ice)) ==> unboxed(m.Body, ptr(WebRtcSignal_Ice)) != nil)
+//@ func (*WebRtcSdp).Validate
+//@   nilable-receiver
+//@   noframe
+//@ func (*WebRtcIce).Validate
+//@   nilable-receiver
+//@   noframe
+//@ func (*WebRtcIce).ParseICECandidateInit
+//@   nilable-receiver
+//@   noframe
